@@ -26,6 +26,9 @@ type c14Case struct {
 	Source  bool       `json:"include_source"`
 	Choices []int      `json:"choices,omitempty"`
 	JSONEnc int        `json:"json_encoding,omitempty"`
+	// After > 0: the print follows a failed print of failing variant After of the same model (with AfterSource)
+	After       int  `json:"after_failed_variant,omitempty"`
+	AfterSource bool `json:"after_failed_with_source,omitempty"`
 }
 
 type attr struct{ mod, file string }
@@ -167,9 +170,10 @@ func stripComments(dsl string) string {
 	lines := strings.Split(dsl, "\n")
 	for i, l := range lines {
 		if j := strings.Index(l, " #"); j >= 0 {
-			l = l[:j]
+			// only a line that carried a comment loses the blanks before it
+			l = strings.TrimRight(l[:j], " ")
 		}
-		lines[i] = strings.TrimRight(l, " ")
+		lines[i] = l
 	}
 	return strings.Join(lines, "\n")
 }
@@ -425,6 +429,25 @@ func c14One(ctx *core.Ctx, tag string, m *ref.Model, thorough bool) {
 		ctx.Violation("source-comments-change-model", tag+": output with source information parses to a different model", cs, a, b)
 		return
 	}
+	// repeated calls: the text is the same after calls that FAILED part-way (whatever they left behind must not show)
+	for vi, bad := range c14FailingVariants(pm0) {
+		for _, src := range []bool{false, true} {
+			for _, srcBad := range []bool{false, true} {
+				_, errBad, pnBad := printModel(proto.Clone(bad).(*openfgav1.AuthorizationModel), transformer.WithIncludeSourceInformation(srcBad))
+				if errBad == nil && pnBad == nil {
+					continue // this variant is printable after all: nothing failed
+				}
+				ctx.Flag("c14:after-failed-call")
+				ctx.Trans(2)
+				out, err, pn := printModel(proto.Clone(pm0).(*openfgav1.AuthorizationModel), transformer.WithIncludeSourceInformation(src))
+				if err != nil || pn != nil || out != outputs[src] {
+					c := c14Case{Model: m, Perm: identity(nT), Source: src, After: vi + 1, AfterSource: srcBad}
+					ctx.Violation("output-depends-on-earlier-failed-call", fmt.Sprintf("%s: after a call that failed (variant %d of the same model: %v) the model prints differently (err=%v panic=%v)", tag, vi+1, errBad, err, pn), c, outputs[src], out)
+					return
+				}
+			}
+		}
+	}
 	ctx.Nontrivial(plain + "\x00" + withSrc)
 	if modular {
 		ctx.Flag("modular")
@@ -434,6 +457,57 @@ func c14One(ctx *core.Ctx, tag string, m *ref.Model, thorough bool) {
 	if ctx.WantSample() && modular {
 		ctx.Sample(map[string]any{"model": tag, "with_source_information": withSrc})
 	}
+}
+
+// c14FailingVariants: the model with one unprintable part added where it is reached late - a condition (sorted last) with a
+// container parameter without element type, a condition stored under another key than its name, a last type whose relation
+// has no rewrite, and one whose direct assignment sits two operators deep.
+func c14FailingVariants(pm *openfgav1.AuthorizationModel) []*openfgav1.AuthorizationModel {
+	var out []*openfgav1.AuthorizationModel
+	mk := func(f func(m *openfgav1.AuthorizationModel)) {
+		c := proto.Clone(pm).(*openfgav1.AuthorizationModel)
+		f(c)
+		out = append(out, c)
+	}
+	mk(func(m *openfgav1.AuthorizationModel) {
+		if m.Conditions == nil {
+			m.Conditions = map[string]*openfgav1.Condition{}
+		}
+		m.Conditions["zzz_bad"] = &openfgav1.Condition{Name: "zzz_bad", Expression: "l == l",
+			Parameters: map[string]*openfgav1.ConditionParamTypeRef{"l": {TypeName: openfgav1.ConditionParamTypeRef_TYPE_NAME_LIST}}}
+	})
+	mk(func(m *openfgav1.AuthorizationModel) {
+		if m.Conditions == nil {
+			m.Conditions = map[string]*openfgav1.Condition{}
+		}
+		m.Conditions["zzz_key"] = &openfgav1.Condition{Name: "another_name", Expression: "x < 1",
+			Parameters: map[string]*openfgav1.ConditionParamTypeRef{"x": {TypeName: openfgav1.ConditionParamTypeRef_TYPE_NAME_INT}}}
+	})
+	mk(func(m *openfgav1.AuthorizationModel) {
+		m.TypeDefinitions = append(m.TypeDefinitions, &openfgav1.TypeDefinition{Type: "zzz_type",
+			Relations: map[string]*openfgav1.Userset{"ok": ref.UsersetProto(ref.C("ok2")), "ok2": ref.UsersetProto(ref.C("ok")), "zz": {}}})
+	})
+	mk(func(m *openfgav1.AuthorizationModel) {
+		deep := ref.U(ref.C("ok"), ref.I(ref.C("ok"), ref.U(ref.C("ok"), ref.T())))
+		m.TypeDefinitions = append(m.TypeDefinitions, &openfgav1.TypeDefinition{Type: "zzz_type",
+			Relations: map[string]*openfgav1.Userset{"ok": ref.UsersetProto(ref.C("zz")), "zz": ref.UsersetProto(deep)},
+			Metadata: &openfgav1.Metadata{Relations: map[string]*openfgav1.RelationMetadata{"zz": {DirectlyRelatedUserTypes: []*openfgav1.RelationReference{{Type: "user"}}}}}})
+	})
+	// the same two, attributed to a module that sorts last (a modular model puts unattributed items first)
+	mk(func(m *openfgav1.AuthorizationModel) {
+		if m.Conditions == nil {
+			m.Conditions = map[string]*openfgav1.Condition{}
+		}
+		m.Conditions["zzz_bad"] = &openfgav1.Condition{Name: "zzz_bad", Expression: "l == l",
+			Parameters: map[string]*openfgav1.ConditionParamTypeRef{"l": {TypeName: openfgav1.ConditionParamTypeRef_TYPE_NAME_MAP}},
+			Metadata:   &openfgav1.ConditionMetadata{Module: "zzzz", SourceInfo: &openfgav1.SourceInfo{File: "zzzz.fga"}}}
+	})
+	mk(func(m *openfgav1.AuthorizationModel) {
+		m.TypeDefinitions = append(m.TypeDefinitions, &openfgav1.TypeDefinition{Type: "zzz_type",
+			Relations: map[string]*openfgav1.Userset{"ok": ref.UsersetProto(ref.C("ok2")), "ok2": ref.UsersetProto(ref.C("ok")), "zz": {}},
+			Metadata:  &openfgav1.Metadata{Module: "zzzz", SourceInfo: &openfgav1.SourceInfo{File: "zzzz.fga"}}})
+	})
+	return out
 }
 
 func identity(n int) []int {
@@ -483,7 +557,7 @@ func init() {
 		Technique: "exhaustive exploration of map-iteration schedules (deviation-bounded stateless DFS over injected choice points) x input permutations, differential oracle plus independent order reference",
 		Run:       c14Run,
 		Finish: func(r *core.Result) error {
-			for _, f := range []string{"modular", "plain", "source-comments-present", "map-sites-reached"} {
+			for _, f := range []string{"modular", "plain", "source-comments-present", "map-sites-reached", "c14:after-failed-call"} {
 				if !r.Flags[f] {
 					return fmt.Errorf("C14: guard %q never exercised (is the maps overlay active?)", f)
 				}
